@@ -1322,6 +1322,11 @@ emitfunc(struct func *f, bool global)
 			v = mkintconst(0);
 		funcret(f, v);
 	}
+#ifdef CPROC_VERIF
+	/* H6: definition of a function */
+	vtrace("{\"e\":\"def\",\"d\":\"%p\",\"name\":\"%s\",\"kind\":\"func\",\"export\":%d,\"thread\":0,\"lid\":%u,\"asm\":%d,\"size\":0,\"align\":0}",
+		(void *)f->decl, f->decl->name, global, f->decl->value->id, f->decl->asmname != NULL);
+#endif
 	if (global)
 		puts("export");
 	fputs("function ", stdout);
@@ -1441,6 +1446,11 @@ emitdata(struct decl *d, struct init *init)
 	align = d->u.obj.align;
 #ifdef CPROC_VERIF
 	vtracedata(d->value, d->type->size, d->u.obj.align, d->type->align);
+#endif
+#ifdef CPROC_VERIF
+	/* H6: definition of an object */
+	vtrace("{\"e\":\"def\",\"d\":\"%p\",\"name\":\"%s\",\"kind\":\"obj\",\"export\":%d,\"thread\":%d,\"lid\":%u,\"asm\":%d,\"size\":%llu,\"align\":%d}",
+		(void *)d, d->name ? d->name : "", d->linkage == LINKEXTERN, d->u.obj.storage == SDTHREAD, d->value->id, d->asmname != NULL, (unsigned long long)d->type->size, align);
 #endif
 	for (cur = init; cur; cur = cur->next)
 		cur->expr = eval(cur->expr);
